@@ -17,6 +17,7 @@ DOC = {
         'C15.R1': 'every io::Result produced on the group path is PROPAGATED / RETURNED / LOGGED / ERR-RETURNED; closures receiving an io::Result do not discard it silently; named exceptions only',
         'C15.R2': 'hash_file_or_log_err / hash_transformed_or_log_err / file_info_or_log_err: Err -> log (except NotFound) -> None; Ok -> Some',
         'C15.R3': 'no unwrap()/expect() on an io::Result in any body reachable from group_files (named exceptions)',
+        'C15.R7': 'a file that cannot be read completely (it shrank after the scan) is never reported: the hasher compares the scanned length with the length of the open file (re-evaluates C01.R10)',
         'C15.R6': 'an unreadable or vanished path of an inode group (hard links) is left out alone: the hashing task goes on with the next path of the file (re-evaluates C03.R5)',
         'C15.R5': 'the only NotFound that is passed over silently is a vanished input: the start-up probe of the transform launches exactly the program that Transform::run launches (the first word of the command as given, not its base name looked up on $PATH), so a program that cannot be started is reported once at start-up and not mistaken for files that disappeared',
         'C15.R4': 'update_file_locations: a failed extent lookup is logged (except ENOENT) and the loop continues',
@@ -80,6 +81,8 @@ def run(ctx):
     from .common import reevaluate
     from . import c03
     reevaluate(ctx, 'C15.R6', c03.r5)
+    from . import c01
+    reevaluate(ctx, 'C15.R7', c01.r10)
     from .common import run_mandatory
     run_mandatory(ctx, 'C15')
     if ctx.tier == 'thorough' and not getattr(ctx, 'sibling', None):
